@@ -76,7 +76,11 @@ def build(case):
         dims = gen.dims_of(g)
         mp = {labels[c]: (None if a is None else dims[a]) for c, a in enumerate(case["mapping"])}
         kw["vdim_mapping"] = gen.shuffled_mapping(mp, case["seed"])
-    f = df.Field(mesh, nvdim=case["k"], value=arr, dtype={"int": np.int64, "int32": np.int32, "int16": np.int16, "float32": np.float32}.get(case["dtype"]), valid=valid,
+    dt_ = {"int": np.int64, "int32": np.int32, "int16": np.int16, "float32": np.float32}.get(case["dtype"])
+    if dt_ is not None:
+        # the documented spellings of a storage type: the type, its name, its short code, a numpy dtype object
+        dt_ = [dt_, np.dtype(dt_).name, np.dtype(dt_).str.lstrip("<=|"), np.dtype(dt_)][case["seed"] % 4]
+    f = df.Field(mesh, nvdim=case["k"], value=arr, dtype=dt_, valid=valid,
                  unit=case["unit"], **kw)
     return mesh, f, arr, valid
 
@@ -187,10 +191,23 @@ def check_vtk(case):
             old = df.Field(df.Mesh(region=mesh.region, n=mesh.n,
                                    subregions={"stale": df.Region(p1=mesh.region.pmin, p2=mesh.region.pmax)}), nvdim=1, value=1.0)
             old.to_file(path)
+            if case["seed"] % 3 == 0:
+                df.Field.from_file(path)  # ... and was read in this session: the next read returns the file as it is then
             tag("name-used-before")
         f.to_file(gen.path_arg(path, case["seed"]), representation=rep, save_subregions=case["save_subregions"])
         g2 = vtk_read(path)
         check_grid(case, g2, f, arr, valid, lat, "file", rtol)
+        if case["seed"] % 4 == 0:
+            # the field returned by a read is the caller's (see C09)
+            try:
+                first = df.Field.from_file(path)
+            except ValueError:
+                first = None
+            if first is not None:
+                first.mesh.translate(tuple(float(c) for c in first.mesh.cell), inplace=True)
+                first.mesh.subregions = {}
+                first.array[...] = 0
+                tag("read-modify-read")
         try:
             back = df.Field.from_file(gen.path_arg(path, case["seed"] + 1))
         except ValueError as e:
